@@ -1833,20 +1833,20 @@ impl Monitor for C17 {
     fn engines(&self, tier: Tier) -> Vec<(&'static str, u64)> {
         vec![
             // exhaustive over (type, code); one round = 65,536 cases
-            ("icmp4_all", PAIRS * tier.pick(16, 160)),
-            ("icmp6_all", PAIRS * tier.pick(16, 160)),
-            ("icmp4_rand", tier.pick(8_000_000, 80_000_000)),
-            ("icmp6_rand", tier.pick(10_000_000, 100_000_000)),
+            ("icmp4_all", PAIRS * tier.pick(16, 640)),
+            ("icmp6_all", PAIRS * tier.pick(16, 640)),
+            ("icmp4_rand", tier.pick(8_000_000, 320_000_000)),
+            ("icmp6_rand", tier.pick(10_000_000, 400_000_000)),
             // exhaustive over (option type, length units)
-            ("ndp_opt_all", PAIRS * tier.pick(8, 80)),
-            ("ndp_opt_rand", tier.pick(10_000_000, 100_000_000)),
+            ("ndp_opt_all", PAIRS * tier.pick(8, 320)),
+            ("ndp_opt_rand", tier.pick(10_000_000, 400_000_000)),
             // exhaustive over (type, length 0..=40)
             ("igmp_all", 256 * IGMP_LENS * tier.pick(64, 640)),
-            ("igmp_rand", tier.pick(6_000_000, 60_000_000)),
+            ("igmp_rand", tier.pick(6_000_000, 240_000_000)),
             // exhaustive over (hlen, plen)
-            ("arp_all", PAIRS * tier.pick(8, 80)),
-            ("arp_eth", tier.pick(6_000_000, 60_000_000)),
-            ("api", tier.pick(20_000, 200_000)),
+            ("arp_all", PAIRS * tier.pick(8, 320)),
+            ("arp_eth", tier.pick(6_000_000, 240_000_000)),
+            ("api", tier.pick(20_000, 800_000)),
         ]
     }
 
